@@ -12,7 +12,7 @@ Lemma sd_size_crossed : Z.of_nat (sd_set_size sd_cfg_crossed) = 9009.
 Proof. exact (sd_all_checks_size _ _ sd_checks_crossed). Qed.
 
 Lemma sd_crossed : forall s, sd_reach sd_cfg_crossed s ->
-  sd_sys_safe s = true /\ sd_sys_inv s = true /\ sd_eventually_closed s.
+  sd_sys_safe s = true /\ sd_sys_inv s = true /\ (sd_started s = true -> sd_eventually_closed s).
 Proof. exact (sd_all_checks_sound _ _ sd_checks_crossed). Qed.
 
 (* ---------------------------------------------------------------- transport failure: the clause is refuted *)
